@@ -33,8 +33,9 @@ pub struct Ev {
     pub c: i64,
     pub d: i64,
     pub e: i64,
+    pub r: i64, // value the model returned
 }
-pub const NO_EV: Ev = Ev { kind: 0, a: 0, b: 0, c: 0, d: 0, e: 0 };
+pub const NO_EV: Ev = Ev { kind: 0, a: 0, b: 0, c: 0, d: 0, e: 0, r: 0 };
 pub const TRACE_CAP: usize = 12;
 pub static mut TRACE: [Ev; TRACE_CAP] = [NO_EV; TRACE_CAP];
 pub static mut TLEN: usize = 0;
@@ -44,8 +45,13 @@ pub static mut ERRNO: c_int = 0;
 pub fn ev(kind: u8, a: i64, b: i64, c: i64, d: i64, e: i64) {
     unsafe {
         assert!(TLEN < TRACE_CAP, "ghost trace capacity (harness bug, not a property)");
-        TRACE[TLEN] = Ev { kind, a, b, c, d, e };
+        TRACE[TLEN] = Ev { kind, a, b, c, d, e, r: 0 };
         TLEN += 1;
+    }
+}
+pub fn ret(r: i64) {
+    unsafe {
+        TRACE[TLEN - 1].r = r;
     }
 }
 pub fn tlen() -> usize {
@@ -123,14 +129,18 @@ pub extern "C" fn shv_m_raise(sig: c_int) -> c_int {
     ev(EV_RAISE, sig as i64, 0, 0, 0, 0);
     unsafe {
         if let Some(f) = ON_RAISE {
-            return f(sig);
+            f(sig);
         }
     }
     let r: c_int = kani::any();
     kani::assume(r == 0 || r == -1);
+    if r == -1 {
+        unsafe { ERRNO = libc::EINVAL };
+    }
+    ret(r as i64);
     r
 }
-pub static mut ON_RAISE: Option<fn(c_int) -> c_int> = None;
+pub static mut ON_RAISE: Option<fn(c_int)> = None;
 
 #[no_mangle]
 pub extern "C" fn shv_m_sigaction(sig: c_int, act: *const libc::sigaction, old: *mut libc::sigaction) -> c_int {
@@ -150,6 +160,7 @@ pub extern "C" fn shv_m_sigaction(sig: c_int, act: *const libc::sigaction, old: 
         if r != 0 {
             ERRNO = libc::EINVAL;
         }
+        ret(r as i64);
         r
     }
 }
@@ -169,6 +180,7 @@ pub extern "C" fn shv_m_sigprocmask(how: c_int, set: *const libc::sigset_t, old:
     ev(EV_SIGPROCMASK, how as i64, !set.is_null() as i64, !old.is_null() as i64, 0, 0);
     let r: c_int = kani::any();
     kani::assume(r == 0 || r == -1);
+    ret(r as i64);
     r
 }
 
@@ -188,6 +200,7 @@ pub extern "C" fn shv_m_send(fd: c_int, _buf: *const c_void, len: usize, flags: 
             kani::assume(ERRNO > 0 && ERRNO < 134);
         }
     }
+    ret(r as i64);
     r
 }
 #[no_mangle]
@@ -201,6 +214,7 @@ pub extern "C" fn shv_m_write(fd: c_int, _buf: *const c_void, len: usize) -> isi
             kani::assume(ERRNO > 0 && ERRNO < 134);
         }
     }
+    ret(r as i64);
     r
 }
 // number of further recv calls that may still return data (models a finite amount buffered)
@@ -221,6 +235,7 @@ pub extern "C" fn shv_m_recv(fd: c_int, _buf: *mut c_void, len: usize, flags: c_
         }
     }
     ev(EV_RECV, fd as i64, len as i64, flags as i64, r as i64, 0);
+    ret(r as i64);
     r
 }
 #[no_mangle]
@@ -228,6 +243,7 @@ pub extern "C" fn shv_m_close(fd: c_int) -> c_int {
     ev(EV_CLOSE, fd as i64, 0, 0, 0, 0);
     let r: c_int = kani::any();
     kani::assume(r == 0 || r == -1);
+    ret(r as i64);
     r
 }
 pub static mut FCNTL_GETFL: c_int = 0;
@@ -246,6 +262,7 @@ pub extern "C" fn shv_m_fcntl(fd: c_int, cmd: c_int, arg: c_int) -> c_int {
         }
     }
     ev(EV_FCNTL, fd as i64, cmd as i64, arg as i64, r as i64, 0);
+    ret(r as i64);
     r
 }
 #[no_mangle]
